@@ -495,7 +495,7 @@ func runC20(p *an.Prog, r *an.Run, tier string) {
 	isStartedAddr := func(v ssa.Value) bool {
 		fv := an.FieldOf(v)
 		n := structOfFieldAccess(v)
-		return fv != nil && n != nil && fv.Name() == "started" && n.Obj().Name() == "Agent"
+		return fv != nil && n != nil && an.Ident(fv.Name()) == "started" && n.Obj().Name() == "Agent"
 	}
 	// reset helpers: functions that store their bool parameter (or false) into started under the mutex
 	helpers := map[*ssa.Function]int{} // fn -> index of bool param (-1: constant false)
@@ -822,7 +822,7 @@ func runC20(p *an.Prog, r *an.Run, tier string) {
 		an.AllInstrs(fn, func(in ssa.Instruction) {
 			isStopCh := func(v ssa.Value) bool {
 				fv := an.FieldOf(stripLoad(v))
-				return fv != nil && fv.Name() == "stopCh"
+				return fv != nil && an.Ident(fv.Name()) == "stopCh"
 			}
 			switch x := in.(type) {
 			case *ssa.UnOp:
@@ -1024,7 +1024,7 @@ func runC20(p *an.Prog, r *an.Run, tier string) {
 				if st, ok := in.(*ssa.Store); ok && isGlobalNamed(st.Addr, "maxUpdateInterval") {
 					nW++
 					k, ok := an.ConstInt(st.Val)
-					if fn.Name() != "init" {
+					if an.Ident(fn.Name()) != "init" {
 						bad = append(bad, "maxUpdateInterval is reassigned in "+an.FuncName(fn))
 					} else if !ok || k > exp || k <= 0 {
 						bad = append(bad, "maxUpdateInterval is initialised to a value above the pool's expiry window (store.ExpireInterval)")
